@@ -77,6 +77,37 @@ def script(rng, t, scen, cutname, upto, fault, others, send_first=False):
     ops.append({"op": "quiescent"})
     return {"scen": scen, "sock": t, "ops": ops, "tag": "%s/%s/%d/%s" % (cutname, fault, others, "send-first" if send_first else "recv-first")}
 
+def joining_script(t, scen, rep):
+    """a peer fails while a call that holds its table entry is pending AND another peer's handshake is registering itself
+    (the registration may have to wait for the entry): the call must come back and the socket must go on working"""
+    ptype = S.PEER_OF[t][0]
+    big = [hx(b"J" * 3000)]
+    ops = [{"op": "attach", "c": 1, "ptype": ptype}]
+    if t == "REQ":
+        ops += [{"op": "send", "m": [hx("q1")]}, {"op": "recv_poll"}]                       # recv pending: waits for the reply of peer 1
+        ops += [{"op": "attach", "c": 2, "ptype": ptype}, {"op": "attach", "c": 3, "ptype": ptype}]
+        ops += [{"op": "pclose", "c": 1}, {"op": "call_wait"}, {"op": "attach_wait", "c": 2}, {"op": "attach_wait", "c": 3}, {"op": "quiescent"}, {"op": "recv_drop"}]
+        ops += [{"op": "send", "m": [hx("q2")]}, {"op": "preply", "m": [hx(""), hx("r2")]}, {"op": "recv"}, {"op": "quiescent"}, {"op": "recv_drop"}]
+    else:
+        if t in ("PUB", "XPUB", "PULL"):
+            return None                                                                    # no call that waits while holding a peer entry
+        if t == "REP":
+            ops += [{"op": "psend", "c": 1, "m": [hx(""), hx("request")]}, {"op": "recv"}]
+        if t == "SUB":
+            pass
+        ops += [{"op": "credit", "c": 1, "k": 0}]
+        call = {"op": "send_to", "c": 1, "m": big} if t == "ROUTER" else {"op": "sub", "t": "topic%d" % scen} if t == "SUB" else {"op": "send", "m": big}
+        ops += [dict(call), {"op": "call_poll"}]                                           # pending on back-pressure, holding peer 1's entry
+        ops += [{"op": "attach", "c": 2, "ptype": ptype}, {"op": "attach", "c": 3, "ptype": ptype}]
+        ops += [{"op": "wbreak", "c": 1}, {"op": "pfail", "c": 1, "kind": "reset"}, {"op": "credit", "c": 1}, {"op": "call_wait"},
+                {"op": "attach_wait", "c": 2}, {"op": "attach_wait", "c": 3}, {"op": "quiescent"}, {"op": "call_drop"}]
+        if t in ("DEALER", "PUSH"):
+            ops += [{"op": "send", "m": [hx("after%d" % scen)], "note": {"first": list(b"after")}}]
+        if t == "ROUTER":
+            ops += [{"op": "send_to", "c": 2, "m": [hx("after%d" % scen)]}]
+        ops += [{"op": "quiescent"}]
+    return {"scen": scen, "sock": t, "ops": ops, "tag": "joining/%d" % rep, "nojitter": True}
+
 def run(chk, replay=None):
     chk.rule = ("cases = grid {9 socket types} x {cut position in the victim's byte stream: between messages, inside a frame header, inside an 8-byte length, inside a body, between "
                 "frames of a multipart message} x {orderly EOF, connection reset (reads and writes fail), EOF followed by write failure} x {1, 2 other live peers} x {the fault is first met by a recv, by a send}, each followed by recv / send calls and "
@@ -90,6 +121,13 @@ def run(chk, replay=None):
     for cfg, must in (("MC_PeerLifecycle_ok", True), ("MC_PeerLifecycle_eof_keeps_entry", False), ("MC_PeerLifecycle_error_stream_requeued", False), ("MC_PeerLifecycle_send_error_keeps_peer", False)):
         r = vlib.tlc("PeerLifecycle", cfg + ".cfg", chk.wd, timeout=600, coverage=must)
         (chk.model_must_hold if must else chk.model_must_fail)(r, "PeerLifecycle " + cfg + (": released after observation, at most one error per peer, nothing routed to an observed-dead peer; 2 peers, every fault / recv / send order" if must else " (named deviation of the code, past or open: counterexample exists)"))
+    for cfg, must, what in (("MC_PeerTable_ok1", True, "awaited removal, 1 worker thread: never stuck, every task terminates (call + 2 handshakes queued behind the held entry)"),
+                            ("MC_PeerTable_ok2", True, "awaited removal, 2 worker threads"),
+                            ("MC_PeerTable_sync_remove_2threads", True, "blocking removal, 2 worker threads: a worker is blocked but everything terminates"),
+                            ("MC_PeerTable_sync_remove_1thread", False, "blocking removal after the entry was held across an await, 1 worker thread (the pinned tree): the runtime is stuck for good"),
+                            ("MC_PeerTable_reach", False, "reachability companion: a handshake really queues behind the call's entry")):
+        r = vlib.tlc("PeerTable", cfg + ".cfg", chk.wd, timeout=300, coverage=must)
+        (chk.model_must_hold if must else chk.model_must_fail)(r, "PeerTable " + what)
     if replay:
         sc = json.load(open(replay))["replay"]["script"]
         fam = [sc]
@@ -108,6 +146,15 @@ def run(chk, replay=None):
                 upto = rng.randint(1, 326)
             fam.append(script(rng, t, scen, cutname, upto, rng.choice(FAULTS), rng.randint(1, 3), rng.random() < 0.5))
         chk.exhaustive = True
+    if not replay:
+        # identities are random and so is the peer table's hash seed: whether two peers share a bucket differs from run to run,
+        # hence the repetitions
+        for t in S.PEER_OF:
+            for rep in range(24 if thorough else 8):
+                scen += 1
+                js = joining_script(t, scen, rep)
+                if js:
+                    fam.append(js)
     for s in fam: chk.case((s["sock"], s["tag"], s["scen"]))
     chk.sample({"kind": "fault scenario", "sock": fam[len(fam) // 2]["sock"], "cell": fam[len(fam) // 2]["tag"], "ops": [(o["op"], o.get("c")) for o in fam[len(fam) // 2]["ops"]]})
     v = dlvlib.run_scripts(chk, fam, "c16", monitor="TraceLifecycle")
